@@ -10,12 +10,22 @@
 (* ties of the rule, the two admissible reductions for an auto-selected model, the size of the automatic       *)
 (* output VOA) the step is nondeterministic.  The clauses are stated on the designed settings only and are     *)
 (* checked by TLC for every reachable design of every profile and configuration of the bounded instance.       *)
+(*                                                                                                            *)
+(* THE DESIGNED LINE IS A STATE THAT LIVES ON.  Once complete, the design is used: loads are propagated        *)
+(* through it (the design load, or a heavier what-if load that drives amplifiers into saturation for the time  *)
+(* of that propagation - action Use), and the tools design the SAME amplifiers again for the same reference    *)
+(* channel (every step of a power sweep, the planner's redesign - action DesignAgain: the walk starts over,    *)
+(* the operator settings are still those of the configuration, the amplifier models and the output VOAs in     *)
+(* place are kept).  Propagating changes no designed setting (UseKeepsTheDesign); the clauses, being          *)
+(* invariants, bind the second design like the first, and where the property leaves no choice the second       *)
+(* design IS the first (DesignedAgainIsTheSame).                                                               *)
 EXTENDS DesignPowerRule
 
 CONSTANTS Configs,     \* set of [mode, slope (milli), ref, lo, hi, step, prefTot]
           Profiles,    \* set of OMS profiles [ing, t0, tx, dpref, dload, amps : Seq([L, Ln, nxt, inVoa, uGain, uDp, uVoa, uVar,
                        \*                                                     pmax, pmaxSet, flatx, autoVoa])]
-          VoaGrid      \* candidate automatic VOA values
+          VoaGrid,     \* candidate automatic VOA values
+          Followed(_, _)  \* Followed(cfg, oms): the life of this designed line is followed further (bounded instance)
 
 (* The OMS starts at a ROADM (ing = 0), whose egress target puts the reference channel at pref + t0, or directly at a   *)
 (* transceiver (ing = 1) that transmits tx dBm: t0 is then tx - pref.  dpref shifts the reference power of the profile  *)
@@ -30,8 +40,10 @@ VARIABLES cfg,      \* the design configuration (fixed along a behaviour)
           prevNet,  \* net offset the channel has when it enters the span in front of amplifier i+1
           pLine,    \* LEDGER: power of the reference channel relative to pref at the current point of the line,
                     \*         obtained by physically applying every loss, gain and VOA crossed so far
-          out       \* designed settings: Seq([gain, dp, voa, pmax of the model in place])
-vars == <<cfg, oms, i, prevNet, pLine, out>>
+          out,      \* designed settings: Seq([gain, dp, voa, pmax of the model in place])
+          used,     \* a load has been propagated through the line since it was (last) designed
+          first     \* the first complete design, once the line is being / has been designed again (<<>> before)
+vars == <<cfg, oms, i, prevNet, pLine, out, used, first>>
 
 T0 == IF oms.ing = 1 THEN oms.tx - oms.dpref ELSE oms.t0          \* offset of the channel leaving the ingress
 C  == [cfg EXCEPT !.prefTot = cfg.prefTot + oms.dpref + oms.dload]   \* the configuration at this profile's design load
@@ -42,13 +54,20 @@ Init == /\ cfg \in Configs
         /\ prevNet = T0
         /\ pLine = T0
         /\ out = <<>>
+        /\ used = FALSE
+        /\ first = <<>>
+
+Complete == i = Len(oms.amps)
+Again    == first # <<>>                                             \* this is the second design of the line
 
 DesignAmp ==
     /\ i < Len(oms.amps)
-    /\ \E pm \in oms.amps[i + 1].pmaxSet :                           \* p_max of the model in place
+    /\ \E pm \in (IF Again THEN {first[i + 1].pmax} ELSE oms.amps[i + 1].pmaxSet) :   \* p_max of the model in place
        LET a == [oms.amps[i + 1] EXCEPT !.pmax = pm] IN
        \E t \in Targets(C, a, prevNet) : \E rho \in RhoSet(C, a, t) :
-       \E v \in AutoVoaSet(C, a, t.g0 - rho, t.dp0 - rho, rho, VoaGrid) :
+       \* an automatic output VOA is chosen by the design that finds none; a later design keeps the VOA in place
+       \E v \in (IF Again THEN {first[i + 1].voa - VoaU(a)}
+                          ELSE AutoVoaSet(C, a, t.g0 - rho, t.dp0 - rho, rho, VoaGrid)) :
           LET gain == t.g0 - rho + v
               dp   == t.dp0 - rho + v
               voa  == VoaU(a) + v
@@ -56,9 +75,21 @@ DesignAmp ==
              /\ prevNet' = dp - voa
              /\ pLine' = pLine - a.L - a.inVoa + gain - voa          \* span, input VOA, amplifier, output VOA
              /\ i' = i + 1
-    /\ UNCHANGED <<cfg, oms>>
+    /\ UNCHANGED <<cfg, oms, used, first>>
 
-Next == DesignAmp
+\* a load - the design load or any other - is propagated through the designed line: no designed setting changes
+\* (an amplifier that saturates under a heavier load lowers its gain for THAT propagation only)
+Use == /\ Complete /\ Followed(cfg, oms) /\ ~used
+       /\ used' = TRUE
+       /\ UNCHANGED <<cfg, oms, i, prevNet, pLine, out, first>>
+
+\* the same line is designed a second time for the same reference channel: the walk starts over from the ingress
+DesignAgain == /\ Complete /\ Followed(cfg, oms) /\ ~Again
+               /\ first' = out
+               /\ i' = 0 /\ prevNet' = T0 /\ pLine' = T0 /\ out' = <<>> /\ used' = FALSE
+               /\ UNCHANGED <<cfg, oms>>
+
+Next == DesignAmp \/ Use \/ DesignAgain
 Spec == Init /\ [][Next]_vars
 
 -----------------------------------------------------------------------------
@@ -81,6 +112,17 @@ NeverAboveMaxOutput   == \A k \in Designed : NeverAboveMaxOutputAt(C, A(k), out[
 \* noise-free form of DesignLoadReproduces (the trace specification states it on propagated powers).
 RefChannelAtTarget == pLine = (IF i = 0 THEN T0 ELSE NetOf(out[i]))
 
+\* the life of the designed line
+UseKeepsTheDesign == [][used' # used /\ used' => out' = out /\ i' = i]_vars
+\* where the property leaves no choice (no rounding tie, one admissible reduction) the second design is the first
+NoChoice(k) == LET a == A(k) IN
+               /\ Cardinality(RuleSet(C, a.nxt, a.Ln)) = 1
+               /\ \A t \in Targets(C, a, PrevNetOf(k)) : Cardinality(RhoSet(C, a, t)) = 1
+DesignedAgainIsTheSame ==
+    Again => \A k \in Designed : (\A j \in 1..k : NoChoice(j)) => out[k] = first[k]
+
 TypeOK == /\ i \in 0..Len(oms.amps)
           /\ Len(out) = i
+          /\ used \in BOOLEAN
+          /\ first = <<>> \/ Len(first) = Len(oms.amps)
 ==============================================================================
